@@ -2,8 +2,8 @@ import UmProofs.BrokerScaleQuota
 /-!
 # C10 — `remove_slots_from_src` on a balanced cluster with `k` extra empty chunks
 -/
-namespace Um.Broker
-open Um Um.Slots
+namespace Um.Broker.Scale
+open Um Um.Slots Um.Broker
 
 theorem surplusChunks_append (P : OutParams) (A B : List Chunk) (i : Nat) :
     surplusChunks P (A ++ B) i = surplusChunks P A i + surplusChunks P B (i + A.length) := by
@@ -43,7 +43,7 @@ theorem srcOk_empty (P : OutParams) (B : List Chunk) (h : EmptyChunks B) (i : Na
     · intro rl hrl; rw [h1] at hrl; cases hrl
 
 theorem srcOk_full (P : OutParams) (m : Nat) (hm : 2 ≤ m) (A : List Chunk) (i : Nat) (h : FullChunks m A i)
-    (hle : ∀ idx, P.srcFinal idx ≤ quota m idx) : SrcOk P A i := by
+    (hle : ∀ idx, (OutParams.srcFinal P) idx ≤ quota m idx) : SrcOk P A i := by
   induction A generalizing i with
   | nil => trivial
   | cons a A ih =>
@@ -55,8 +55,8 @@ theorem srcOk_full (P : OutParams) (m : Nat) (hm : 2 ≤ m) (A : List Chunk) (i 
       exact ⟨ay, by rw [cy]; exact hle _, by rw [cy]; exact quota_le m _ hm⟩
 
 theorem surplus_full (P : OutParams) (m : Nat) (A : List Chunk) (i : Nat) (h : FullChunks m A i)
-    (hle : ∀ idx, P.srcFinal idx ≤ quota m idx) :
-    surplusChunks P A i + rangeSum P.srcFinal (i * 2) (A.length * 2) =
+    (hle : ∀ idx, (OutParams.srcFinal P) idx ≤ quota m idx) :
+    surplusChunks P A i + rangeSum (OutParams.srcFinal P) (i * 2) (A.length * 2) =
       rangeSum (quota m) (i * 2) (A.length * 2) := by
   induction A generalizing i with
   | nil => simp [surplusChunks, rangeSum, sumTo]
@@ -107,7 +107,7 @@ theorem srcDone_empty (P : OutParams) (B B' : List Chunk) (i : Nat) (he : EmptyC
       cases b; simp_all
 
 theorem srcDone_full (P : OutParams) (m m' : Nat) (A A' : List Chunk) (i : Nat) (hf : FullChunks m A i)
-    (h : SrcDone P A A' i) (heq : ∀ idx, P.srcFinal idx = quota m' idx) : FullChunks m' A' i := by
+    (h : SrcDone P A A' i) (heq : ∀ idx, (OutParams.srcFinal P) idx = quota m' idx) : FullChunks m' A' i := by
   induction A generalizing A' i with
   | nil =>
     cases A' with
@@ -123,6 +123,23 @@ theorem srcDone_full (P : OutParams) (m m' : Nat) (A A' : List Chunk) (i : Nat) 
       obtain ⟨r0, rfl, c0, a0⟩ := h0
       obtain ⟨r1, rfl, c1, a1⟩ := h1
       refine ⟨⟨r0, r1, by rw [ha], by rw [ha], a0, a1, by rw [c0, heq], by rw [c1, heq]⟩, ih A' (i + 1) hfr hr⟩
+
+theorem srcDone_noMigs (P : OutParams) (A A' : List Chunk) (i : Nat) (h : SrcDone P A A' i)
+    (hn : NoMigs A) : NoMigs A' := by
+  induction A generalizing A' i with
+  | nil =>
+    cases A' with
+    | nil => exact hn
+    | cons _ _ => exact absurd h (by simp [SrcDone])
+  | cons a A ih =>
+    cases A' with
+    | nil => exact absurd h (by simp [SrcDone])
+    | cons a' A' =>
+      obtain ⟨⟨s0, s1, ha, _, _⟩, hr⟩ := h
+      intro ch hch
+      rcases List.mem_cons.mp hch with rfl | hch
+      · rw [ha]; exact hn a (by simp)
+      · exact ih A' (i + 1) hr (fun c hc => hn c (by simp [hc])) ch hch
 
 theorem filter_full_nil (m : Nat) (A : List Chunk) (i : Nat) (h : FullChunks m A i) :
     A.filter (fun c => c.stable0.isNone && c.stable1.isNone) = [] := by
@@ -158,16 +175,16 @@ theorem removeSlotsFromSrc_balanced {cl : Cluster} {A B : List Chunk} {n k : Nat
     (hch : cl.chunks = A ++ B) (hA : A.length = n) (hB : B.length = k) (hn : 0 < n) (hk : 0 < k)
     (hfull : FullChunks (n * 2) A 0) (hempty : EmptyChunks B) (hM : (n + k) * 2 ≤ SLOT_NUM) :
     ∃ A' out, removeSlotsFromSrc cl e = R.ok (A' ++ B, out) ∧ A'.length = n ∧
-      FullChunks ((n + k) * 2) A' 0 ∧ OutPlan n k e out := by
+      FullChunks ((n + k) * 2) A' 0 ∧ OutPlan n k e out ∧ (NoMigs A → NoMigs A') := by
   have hlen : cl.chunks.length = n + k := by rw [hch, List.length_append, hA, hB]
   let P : OutParams := ⟨e, SLOT_NUM / ((n + k) * 2),
     SLOT_NUM - SLOT_NUM / ((n + k) * 2) * ((n + k) * 2), k * 2, n * 2, n⟩
-  have hsF : ∀ idx, P.srcFinal idx = quota ((n + k) * 2) idx := by
+  have hsF : ∀ idx, (OutParams.srcFinal P) idx = quota ((n + k) * 2) idx := by
     intro idx; simp only [OutParams.srcFinal, quota, P, remainder_eq]
-  have hneed : ∀ j, P.need j = quota ((n + k) * 2) (n * 2 + j) := by
+  have hneed : ∀ j, (OutParams.need P) j = quota ((n + k) * 2) (n * 2 + j) := by
     intro j; simp only [OutParams.need, quota, P, remainder_eq]
   have hav : 1 ≤ P.average := Nat.div_pos hM (by omega)
-  have hle : ∀ idx, P.srcFinal idx ≤ quota (n * 2) idx := by
+  have hle : ∀ idx, (OutParams.srcFinal P) idx ≤ quota (n * 2) idx := by
     intro idx; rw [hsF]; exact quota_anti (by omega) (by omega) idx
   -- the unfolded call
   have hcall : removeSlotsFromSrc cl e =
@@ -183,9 +200,9 @@ theorem removeSlotsFromSrc_balanced {cl : Cluster} {A B : List Chunk} {n k : Nat
     rfl
   -- the loop
   have hst0 : StInv P { dstIdx := 0, curSlots := [], curNum := 0, out := [] } := by
-    refine ⟨Nat.zero_le _, fun _ => P.need_pos hav 0, fun _ => ⟨rfl, rfl⟩, ?_⟩
+    refine ⟨Nat.zero_le _, fun _ => (OutParams.need_pos P) hav 0, fun _ => ⟨rfl, rfl⟩, ?_⟩
     exact ⟨fun j hj => absurd hj (Nat.not_lt_zero j), by simp, fun j _ => by simp, fun ms hms => by cases hms⟩
-  have hsurplus : surplusChunks P (A ++ B) 0 = P.total := by
+  have hsurplus : surplusChunks P (A ++ B) 0 = (OutParams.total P) := by
     rw [surplusChunks_append, surplusChunks_empty P B hempty, Nat.add_zero]
     have h1 := surplus_full P (n * 2) A 0 hfull hle
     rw [hA] at h1
@@ -195,10 +212,10 @@ theorem removeSlotsFromSrc_balanced {cl : Cluster} {A B : List Chunk} {n k : Nat
     have h3 := sum_quota ((n + k) * 2) (by omega)
     have h4 : (n + k) * 2 = n * 2 + k * 2 := by omega
     rw [h4, sumTo_split] at h3
-    have h5 : rangeSum P.srcFinal (0 * 2) (n * 2) = sumTo (quota (n * 2 + k * 2)) (n * 2) := by
+    have h5 : rangeSum (OutParams.srcFinal P) (0 * 2) (n * 2) = sumTo (quota (n * 2 + k * 2)) (n * 2) := by
       unfold rangeSum
       apply sumTo_congr; intro i _; rw [hsF, h4]; simp
-    have h6 : P.total = rangeSum (quota (n * 2 + k * 2)) (n * 2) (k * 2) := by
+    have h6 : (OutParams.total P) = rangeSum (quota (n * 2 + k * 2)) (n * 2) (k * 2) := by
       unfold OutParams.total rangeSum
       apply sumTo_congr; intro j _; rw [hneed, h4]
     omega
@@ -209,18 +226,19 @@ theorem removeSlotsFromSrc_balanced {cl : Cluster} {A B : List Chunk} {n k : Nat
   have hB' := srcDone_empty P B B' _ hempty hdB
   subst hB'
   -- every destination is filled
-  have hgiven : P.given st' = P.total := by
+  have hgiven : (OutParams.given P) st' = (OutParams.total P) := by
     have := hpost.given; rw [hsurplus] at this; simpa [OutParams.given, sumTo] using this
   have hD : st'.dstIdx = P.dstMasterNum := by
     apply Classical.byContradiction
     intro hne
     have hlt : st'.dstIdx < P.dstMasterNum := by have := hpost.inv.le; omega
     have h1 := hpost.inv.lt hlt
-    have h2 : sumTo P.need (st'.dstIdx + 1) ≤ sumTo P.need P.dstMasterNum := sumTo_mono _ hlt
+    have h2 : sumTo (OutParams.need P) (st'.dstIdx + 1) ≤ sumTo (OutParams.need P) P.dstMasterNum := sumTo_mono _ hlt
     simp only [OutParams.given, OutParams.total, sumTo] at hgiven h2
     omega
   have hcur0 := (hpost.inv.fin hD).1
-  refine ⟨A', st'.out, ?_, by rw [hlA, hA], srcDone_full P (n * 2) _ A A' 0 hfull hdA hsF, ?_, ?_, ?_⟩
+  refine ⟨A', st'.out, ?_, by rw [hlA, hA], srcDone_full P (n * 2) _ A A' 0 hfull hdA hsF, ⟨?_, ?_, ?_⟩,
+    srcDone_noMigs P A A' 0 hdA⟩
   · rw [hcall, hch, hrun]; rfl
   · intro j hj
     have := hpost.inv.out.done j (by rw [hD]; exact hj)
@@ -230,7 +248,7 @@ theorem removeSlotsFromSrc_balanced {cl : Cluster} {A B : List Chunk} {n k : Nat
     · have := hpost.inv.out.curr
       rw [hD, hcur0, hpost.empty] at this
       subst hjd
-      have h' : recvBy P.dstIndex st'.out P.dstMasterNum = 0 := by simpa using this
+      have h' : recvBy (OutParams.dstIndex P) st'.out P.dstMasterNum = 0 := by simpa using this
       exact h'
     · exact hpost.inv.out.later j (by rw [hD]; show k * 2 < j; omega)
   · intro ms hms
@@ -241,4 +259,4 @@ theorem removeSlotsFromSrc_balanced {cl : Cluster} {A B : List Chunk} {n k : Nat
     have := (hsrc ms (hnew ▸ hms)).2
     simpa [hA, hB] using this
 
-end Um.Broker
+end Um.Broker.Scale
